@@ -9,10 +9,10 @@ ASSUMPTIONS = [
 
 def run(ctx):
     quick = ctx["tier"] == "quick"
-    runs = [("seq", 300 if quick else 5000, 40, 40, []),
-            ("par", 200 if quick else 4000, 40, 41, []),
+    runs = [("seq", 300 if quick else 20000, 40, 40, []),
+            ("par", 200 if quick else 20000, 40, 41, []),
             ("chain", 200 if quick else 4000, 60, 42, []),
-            ("zchain", 3000 if quick else 60000, 12, 43, [])]
+            ("zchain", 3000 if quick else 200000, 12, 43, [])]
     r = codec.run_art("C06", ctx, runs)
     def search():
         # other seeds, three times as many cases
